@@ -160,6 +160,11 @@ struct WorldP : World {
     auto fail = [&](const std::string &cls, const std::string &d) { violate(cls, d + "; commands " + tr); };
     if (!daemon_done) { fail("C19.server-hung", "server still running after the client went away"); return; }
     if (as_root && !popup) { if (rx.find("+OK") != std::string::npos) fail("C19.runs-as-root", "qmail-pop3d served a session as uid 0: \"" + printable(rx, 80) + "\""); check_maildir_unchanged("root refusal"); return; }
+    // an injected allocation failure may make the server refuse the session, or refuse one command, with -ERR; what it does
+    // show or delete must still be faithful (a partial view of the maildir behind a +OK greeting is not)
+    bool alloc_fault = false; for (auto &f : plan->faults) if (f.kind == "null") alloc_fault = true; bool fault_excused = false;
+    if (alloc_fault && !rep.empty() && rep[0].compare(0, 4, "-ERR") == 0) { k->probe("pop3_refused_under_alloc_fault"); check_maildir_unchanged("refusal under allocation failure"); return; }
+    if (alloc_fault && rep.empty() && daemon_done) { k->probe("pop3_refused_under_alloc_fault"); check_maildir_unchanged("refusal under allocation failure"); return; }
     if (rep.empty() || rep[0].compare(0, 3, "+OK") != 0) { fail("C19.greeting", "\"" + printable(rx, 80) + "\""); return; }
     // ---- model
     size_t ci = 0; bool authed = !popup; bool seenuser = false; std::string user;
@@ -181,6 +186,9 @@ struct WorldP : World {
       std::string v = cl.substr(0, cl.find(' ')); for (auto &c : v) c = (char)tolower((unsigned char)c);
       std::string arg = cl.find(' ') == std::string::npos ? std::string() : cl.substr(cl.find(' ')); while (!arg.empty() && arg[0] == ' ') arg.erase(0, 1);
       bool ok = r.compare(0, 3, "+OK") == 0;
+      if (alloc_fault && !ok && !fault_excused && authed && r.find("memory") != std::string::npos) { fault_excused = true; k->probe("pop3_command_refused_under_alloc_fault");
+        if (v == "quit") return;   // QUIT ran out of memory half-way: some of the requested deletions and moves are done, the rest is not; both are what the client asked for
+        continue; }
       std::string ctx = "command " + std::to_string(ci + 1) + " \"" + printable(line, 40) + "\" answered \"" + printable(r, 80) + "\"";
       // apply the reader's concurrent actions that happened before this command
       if (!authed) {
@@ -189,12 +197,13 @@ struct WorldP : World {
           if (!seenuser || arg.empty()) { if (ok) { fail("C19.popup-pass", ctx); return; } continue; }
           auth_user = user; auth_pass = arg;
           if (arg == "wrong" || arg == "crash") { if (ok) { fail("C19.popup-bad-auth-accepted", ctx); return; } session_dead = true; ci++; break; }
+          if (!ok && !as_root && alloc_fault) { k->probe("pop3_refused_under_alloc_fault"); check_maildir_unchanged("refusal under allocation failure"); return; }   // the server behind the login refused the session for lack of memory
           if (!ok && !as_root) { fail("C19.popup-auth", ctx); return; }
           if (as_root) { if (ok) fail("C19.runs-as-root", "session served as uid 0"); session_dead = true; ci++; break; }
           authed = true;
         }
         else if (v == "apop") { size_t sp = arg.find(' '); if (sp == std::string::npos) { if (ok) { fail("C19.popup-apop", ctx); return; } continue; } auth_user = arg.substr(0, sp); auth_pass = arg.substr(sp + 1);
-          if (auth_pass == "wrong") { if (ok) { fail("C19.popup-bad-auth-accepted", ctx); return; } session_dead = true; ci++; break; } if (!ok) { fail("C19.popup-auth", ctx); return; } authed = true; }
+          if (auth_pass == "wrong") { if (ok) { fail("C19.popup-bad-auth-accepted", ctx); return; } session_dead = true; ci++; break; } if (!ok && alloc_fault) { k->probe("pop3_refused_under_alloc_fault"); check_maildir_unchanged("refusal under allocation failure"); return; } if (!ok) { fail("C19.popup-auth", ctx); return; } authed = true; }
         else if (v == "noop") { if (!ok) { fail("C19.popup-noop", ctx); return; } }
         else if (v == "quit") { if (!ok) { fail("C19.popup-quit", ctx); return; } session_dead = true; ci++; break; }
         else { if (ok) { fail("C19.command-before-authentication", ctx + ": only USER, PASS, APOP, NOOP and QUIT may act before authentication"); return; } }
